@@ -16,6 +16,7 @@ Lexemes == { <<112, 114, 105, 110, 116>>, <<120, 49>>, <<52, 50>>, <<48, 120, 49
              <<35, 99, 13, 52, 50, 10>>,
              <<34, 97, 92>>,
              <<240, 159, 152, 128>>, <<34, 240, 159, 152, 128, 34>>,
+             <<239, 187, 191, 120>>,        \* U+FEFF and a name: as the first lexeme a byte-order mark at the start of the input (no token, no layout)
              <<100, 101, 102, 32, 98, 123, 102, 61, 49, 125>> }     \* a whole closed block, def b{f=1}: what follows it (a lexical failure, say) must not reach back into it     \* a four-byte character (U+1F600) where a token should start, and inside a string                              \* an unterminated string ending in a backslash: the escape takes the next character, a line end too                  \* a comment ended by a bare CR with a token before the next LF
 RECURSIVE Split(_, _, _)
 Split(bs, cuts, from) ==
